@@ -275,11 +275,17 @@ def run_shard(spec, acc):
         victim = NMEA2000Decoder(**cfg)
         ref = NMEA2000Decoder(**cfg)
         outcomes = []
+        last_claim = {}
         for t, ev, inp in inputs:
             o = call(victim, inp)
             outcomes.append(o)
             if t == "ev" and ev.tag == "claim" and o[0] != "exc":
-                call(ref, inp)
+                last_claim.pop(ev.src, None)
+                last_claim[ev.src] = inp
+        # the reference has seen nothing but the most recent claim of every source, once (repeated and superseded
+        # claims are history like everything else)
+        for inp in last_claim.values():
+            call(ref, inp)
         compared = 0
         for pr in probes(pool, rng, sources):
             ov = [call(victim, i) for i in pr]
@@ -290,6 +296,16 @@ def run_shard(spec, acc):
                 kind = "fast-packet-probe" if len(pr) > 1 else "single-frame-probe"
                 acc.violation(f"history-changes-{kind}", f"config {cfg}: probe decodes differently after the history than on a decoder that only saw its claims",
                               dict(w, probe=[i[1].hex() for i in pr], victim=repr(ov)[:400], reference=repr(orf)[:400]))
+
+        # an address claim is a single-frame message too: repeating a source's current claim must decode exactly as
+        # the same claim decodes on a decoder without any history
+        for inp in list(last_claim.values())[:3]:
+            ov = call(victim, inp)
+            of = call(NMEA2000Decoder(**cfg), inp)
+            acc.count("claim_probes_compared")
+            if ov != of:
+                acc.violation("history-changes-claim-probe", f"config {cfg}: a repeated address claim decodes differently after the history than on a fresh decoder",
+                              dict(w, probe=inp[1].hex() if isinstance(inp[1], (bytes, bytearray)) else inp[1], victim=repr(ov)[:400], fresh=repr(of)[:400]))
 
         # --- A2: inputs rejected with an error must not matter at all ---------------------------------
         # a decoder that is given the same history WITHOUT the inputs the victim rejected with an error must
